@@ -55,6 +55,7 @@ class HttpRelayClient(RelayPoolClient):
     def __init__(self, relay):
         super(HttpRelayClient, self).__init__(relay.queue, relay.idle_timeout)
         self.conn = None
+        self.response = None
         self.ehlo_as = None
         self.url = relay.url
         self.relay = relay
@@ -111,6 +112,7 @@ class HttpRelayClient(RelayPoolClient):
             self._new_conn()
             assert self.conn is not None
         with gevent.Timeout(self.relay.timeout):
+            self._finish_response()
             msg_headers, msg_body = envelope.flatten()
             headers = self._build_headers(envelope, msg_headers, msg_body)
             log.request(self.conn, method, self.url.path, headers)
@@ -120,7 +122,15 @@ class HttpRelayClient(RelayPoolClient):
                                     value.encode('iso-8859-1'))
             self.conn.endheaders(msg_headers)
             self.conn.send(msg_body)
-            self._process_response(self.conn.getresponse(), result)
+            self.response = self.conn.getresponse()
+            self._process_response(self.response, result)
+
+    def _finish_response(self):
+        # A connection cannot carry another request until the previous
+        # response has been read completely.
+        response, self.response = self.response, None
+        if response is not None:
+            response.read()
 
     def _parse_smtp_reply_header(self, http_res):
         raw_reply = http_res.getheader('X-Smtp-Reply', '')
